@@ -26,6 +26,16 @@ CFG = {
     # second thread: Miri reports that blocking read as a deadlock; `file … w` reads a real temp file
     "teehist": {"k": 5, "maxlen": 1500, "skip": {"sweep", "all2"}, "keep_hash": True, "require_last": {"file": "w"}},
     "demo": {"sessions": 10, "maxlen": 500, "skip": {"sweep", "mutall"}, "session_start": "new", "maxlines": 120},
+    # h*: hash-form sweeps
+    "browse": {"k": 15, "maxlen": 600, "skip": {"mfh", "hc", "hs"}},
+    "gamenet": {"k": 12, "maxlen": 600, "skip": {"hobjpos", "hbody"}},
+    "recv": {"sessions": 8, "maxlen": 700, "session_start": "new", "maxlines": 150},
+    "snapmgr": {"sessions": 5, "maxlen": 900, "session_start": "new", "maxlines": 150},
+    "snapmgrc": {"sessions": 4, "maxlen": 900, "session_start": "new", "maxlines": 120},
+    "conn6": {"sessions": 4, "maxlen": 900, "session_start": "new", "maxlines": 160},
+    "conn7": {"sessions": 4, "maxlen": 900, "session_start": "new", "maxlines": 160},
+    "net": {"sessions": 4, "maxlen": 900, "session_start": "new", "maxlines": 160},
+    "demohl": {"sessions": 4, "maxlen": 900, "skip": {"mutall"}, "session_start": "new", "maxlines": 120},
     "datafile": {"k": 60, "maxlen": 600, "only": {"open"}, "model_prefix": "err", "candidates": 500},
 }
 
@@ -59,8 +69,10 @@ def main():
                 cur.append(l)
         out, n = [], 0
         for s in sessions:
-            if n >= cfg["sessions"] or len(out) + len(s) > cfg["maxlines"]:
+            if n >= cfg["sessions"]:
                 break
+            if len(out) + len(s) > cfg["maxlines"]:
+                continue
             if all(ok(l) for l in s) and len(s) >= 3:
                 out += s
                 n += 1
